@@ -199,7 +199,8 @@ def r4_initialization(ctx):
     bad = []
     for dim in range(0, 4):
         for n in range(0, 3):
-            table = {"rand::rng::Rng::sample_iter": Agg("repeat", None, None, [Sym("bit")]), "rand::distributions::bernoulli::Bernoulli::new": ok(Sym("bernoulli"))}
+            table = {"rand::rng::Rng::sample_iter": Agg("repeat", None, None, [Sym("bit")]), "rand::distributions::distribution::Distribution::sample_iter": Agg("repeat", None, None, [Sym("bit")]),
+                     "rand::distributions::distribution::Distribution::sample": Sym("bit"), "rand::rng::Rng::sample": Sym("bit"), "rand::rng::Rng::gen_bool": Sym("bit"), "rand::distributions::bernoulli::Bernoulli::new": ok(Sym("bernoulli"))}
             it = install(Interp(fn.body, chain(mk_oracle(table), coll_oracle, std_oracle), [dim, 0.5, n, Sym("rng")], facts=F, inline=lambda k: k.startswith(FU), max_visits=12))
             it.init_state = {"next_vec": 0}
             for p in it.run():
